@@ -8,4 +8,5 @@ INVARIANT GroupsInternal
 INVARIANT GroupsBoundary
 INVARIANT GroupsKramers
 INVARIANT InRangeSubset
+INVARIANT InRangeRelaxed
 CHECK_DEADLOCK FALSE
